@@ -190,6 +190,30 @@ package virtual
 //@   ensures change-info-reports-the-final-counters: r2 == StatusOK ==> r0.After == oldContents.changeID && r1.After == newContents.changeID
 
 // ---------------------------------------------------------------------------
+// Byte-range lock table (C20)
+//
+// Test only ever reports a lock that really conflicts: another owner's lock
+// that overlaps the tested range, one of the two being exclusive. The part of
+// a lock that remains after the same owner re-locks its middle or its head
+// with a different type keeps its own type and owner.
+
+//@ func (*ByteRangeLockSet[Owner]).Test
+//@   props C20
+//@   ensures own-locks-never-conflict: r0 != nil ==> r0.Owner != lTest.Owner
+//@   ensures reported-lock-overlaps: r0 != nil ==> r0.End > lTest.Start && r0.Start < lTest.End
+//@   ensures shared-locks-coexist: r0 != nil ==> r0.Type == ByteRangeLockTypeLockedExclusive || lTest.Type == ByteRangeLockTypeLockedExclusive
+//@ func (*ByteRangeLockSet[Owner]).Set
+//@   props C20
+//@   loop 0 invariant leTrailing != nil ==> leTrailing.lock.Type != lNew.Type && leTrailing.lock.Owner == lNew.Owner
+//@   loop 0 invariant lNew == &leNew.lock && lNew.Type == old(lProvided.Type) && lNew.Owner == old(lProvided.Owner)
+//@   loop 1 invariant leTrailing != nil ==> leTrailing.lock.Type != lNew.Type && leTrailing.lock.Owner == lNew.Owner
+//@   loop 1 invariant lNew == &leNew.lock && lNew.Type == old(lProvided.Type) && lNew.Owner == old(lProvided.Owner)
+//@   at call insertBefore#2 assert remainder-keeps-the-type-of-the-lock-it-was-cut-from:
+//@             leTrailing.lock.Type != lNew.Type && leTrailing.lock.Owner == lNew.Owner
+//@   at call insertBefore#1 assert inserted-lock-is-the-requested-one:
+//@             arg1 == leNew && lNew.Type == old(lProvided.Type) && lNew.Owner == old(lProvided.Owner) && lNew.Type != ByteRangeLockTypeUnlocked
+
+// ---------------------------------------------------------------------------
 // Input files backed by the Content Addressable Storage are immutable (C17)
 //
 // Every attempt to open them for writing, to truncate them or to change their
